@@ -1,7 +1,7 @@
 #!/bin/bash
-# confirm a seed delivered by a sub-agent in /tmp/seed_<Cxx>c/_seed, store it as seeded/<Cxx>-c, remove the worktree, run its check
+# confirm a seed delivered by a sub-agent in /tmp/seed_<Cxx><suffix>/_seed, store it as seeded/<Cxx>-<suffix>, remove the worktree, run its check
 cd "$(dirname "$0")/.."
-p=$1
-/venv/bin/python tools/seedcheck.py confirm $p /tmp/seed_${p}c/_seed ${p}-c 2>&1 | tail -2
-git -C /repo worktree remove --force /tmp/seed_${p}c 2>/dev/null; rm -rf /tmp/seed_${p}c
-[ -d seeded/${p}-c ] && /venv/bin/python tools/seedcheck.py run ${p}-c 2>&1 | tail -1 | cut -c1-260
+p=$1; sfx=${2:-c}
+/venv/bin/python tools/seedcheck.py confirm $p /tmp/seed_${p}${sfx}/_seed ${p}-${sfx} 2>&1 | tail -2
+git -C /repo worktree remove --force /tmp/seed_${p}${sfx} 2>/dev/null; rm -rf /tmp/seed_${p}${sfx}
+[ -d seeded/${p}-${sfx} ] && /venv/bin/python tools/seedcheck.py run ${p}-${sfx} 2>&1 | tail -1 | cut -c1-260
